@@ -1,7 +1,7 @@
 /-
 C05 — Selection objectives mean what they say in every decision encoding.
 Property theorems only (helper lemmas: Lemmas/SelectionSum, SelectionCrit, SelectionDef, SelectionFactory,
-SelectionSpec, SelectionRelabel, SelectionChunk, SelectionRelabelAll).
+SelectionSpec, SelectionRelabel, SelectionChunk, SelectionRelabelAll, SelectionObj).
 
 Model: PybropsModel/Model/Selection.lean.  `latent eps crit decn` transcribes `latentfn` of every class of
 pybrops/breed/prot/sel/prob (criterion families `Crit`: lin = EBV, GEBV, wGEBV, gwGEBV, random, EMBV, UC,
@@ -13,6 +13,7 @@ import Mathlib.Analysis.SpecialFunctions.Sqrt
 import PybropsModel.Lemmas.SelectionRelabelAll
 import PybropsModel.Lemmas.SelectionLookAhead
 import PybropsModel.Lemmas.SelectionSpecGB
+import PybropsModel.Lemmas.SelectionObj
 set_option autoImplicit false
 set_option linter.unusedSectionVars false
 set_option linter.unusedSimpArgs false
@@ -42,7 +43,7 @@ example : ([2, 0] : List Nat).Nodup ∧ ([2, 0] : List Nat) ≠ [] ∧
     (Crit.lin true [[(1:ℚ), 2], [3, 4], [5, 7]]).hasVec = true ∧ ((1:ℚ) / 10 ^ 10 ≤ 1) := by
   refine ⟨by decide, by decide, by decide, rfl, by norm_num⟩
 
-/- FULL STATEMENT (false of the as-is model, see `scale_guard_counterexample`):
+/- FULL STATEMENT (false of the as-is model, see `encodings_real_total_guard_counterexample`):
    theorem encodings_agree_real_total : ∀ a > 0, latent eps cr (.vec (shares cr.ncand S a)) = latent eps cr (.subset S)
    (the guarded classes leave a vector whose total is below 1e-10 unnormalised). -/
 /-- a real contribution vector with any total `a > 0` (at least `eps` for the guarded classes) encodes
@@ -55,6 +56,15 @@ theorem encodings_agree_real_total_partial (eps : α) (cr : Crit α) (hv : cr.ha
 
 example : (0:ℚ) < 7 ∧ ((Crit.mgr [[(1:ℚ), 2], [0, 3]]).guarded = true → (1:ℚ) / 10 ^ 10 ≤ 7) := by
   refine ⟨by norm_num, fun _ => by norm_num⟩
+
+/-- the hypothesis `eps ≤ a` is necessary for the guarded classes: the real vector `1e-11 · 1_{0}` encodes the
+    subset {0} but gets the EBV latent value −1e-11, the subset class gives −1 -/
+theorem encodings_real_total_guard_counterexample (inst : HasSqrt Rat) :
+    latent (mkRat 1 (10 ^ 10)) (.lin true [[1], [0]]) (.vec (shares 2 [0] (mkRat 1 (10 ^ 11))))
+      ≠ latent (mkRat 1 (10 ^ 10)) (.lin true [[1], [0]]) (.subset [0]) := by
+  show some (linCore [[1], [0]] (contrib true (mkRat 1 (10 ^ 10)) (shares 2 [0] (mkRat 1 (10 ^ 11))))) ≠
+       some (linSubset [[1], [0]] [0])
+  decide +kernel
 
 /-- **Order independence.**  The latent vector of a subset does not depend on the order in which the
     subset is listed — all eleven criterion families, no side condition. -/
@@ -571,14 +581,43 @@ theorem factory_taxon_order_wgebv (Z u pw : List (List α)) (is : List Nat) :
   wgebvData_take Z u pw is
 
 /-- usefulness criterion of cross `i` = parental mean (weighted by `epgc`) of the parents named by
-    `xmap[i]` + intensity · √(progeny variance of that cross) -/
+    `xmap[i]` + intensity · √(progeny variance of that cross), for every progeny variance that is a variance
+    (non-negative).  (Since repair dbcebcc2 the code clips a variance that rounding left below zero to 0 before the
+    root — `Selection.clip0`, the identity on non-negative values.) -/
 theorem uc_row_def (epgc : List α) (bv : List (List α)) (intensity : α) (xmap : List (List Nat))
-    (pvar : List (List α)) (i : Nat) (hi : i < xmap.length) :
+    (pvar : List (List α)) (i : Nat) (hi : i < xmap.length) (hv : ∀ j, j < ncols bv → 0 ≤ ent pvar i j) :
     (calcUc epgc bv intensity xmap pvar).getD i [] =
       (List.range (ncols bv)).map fun j =>
         rsum (xmap.getD i []).length (fun p => vget epgc p * ent bv ((xmap.getD i []).getD p 0) j)
-          + intensity * HasSqrt.sqrt (ent pvar i j) :=
-  calcUc_row epgc bv intensity xmap pvar i hi
+          + intensity * HasSqrt.sqrt (ent pvar i j) := by
+  rw [calcUc_row epgc bv intensity xmap pvar i hi]
+  apply List.map_congr_left
+  intro j hj
+  have : clip0 (ent pvar i j) = ent pvar i j := by
+    unfold clip0
+    rw [if_neg (not_lt.mpr (hv j (List.mem_range.mp hj)))]
+  rw [this]
+
+/-- … and a "variance" that rounding left below zero contributes nothing instead of NaN: the row is the parental
+    mean alone when the square root of 0 is 0 -/
+theorem uc_row_negative_variance_clipped (epgc : List α) (bv : List (List α)) (intensity : α) (xmap : List (List Nat))
+    (pvar : List (List α)) (i : Nat) (hi : i < xmap.length) (hv : ∀ j, j < ncols bv → ent pvar i j < 0)
+    (hs0 : HasSqrt.sqrt (0 : α) = 0) :
+    (calcUc epgc bv intensity xmap pvar).getD i [] =
+      (List.range (ncols bv)).map fun j =>
+        rsum (xmap.getD i []).length (fun p => vget epgc p * ent bv ((xmap.getD i []).getD p 0) j) := by
+  rw [calcUc_row epgc bv intensity xmap pvar i hi]
+  apply List.map_congr_left
+  intro j hj
+  have : clip0 (ent pvar i j) = 0 := by
+    unfold clip0
+    rw [if_pos (hv j (List.mem_range.mp hj))]
+  rw [this, hs0, mul_zero, add_zero]
+
+example : (∀ j, j < ncols [[(1:ℚ), 2], [3, 4]] → 0 ≤ ent [[(9:ℚ)/16, 0]] 0 j) := by
+  intro j hj
+  have : j < 2 := by simpa [ncols] using hj
+  interval_cases j <;> norm_num [ent]
 
 /-- EMBV row `i` is the mean over the replicates of cross `i` (every cross gets its own row) -/
 theorem embv_row_mean (nrep : Nat) (tmaxs : List (List (List α))) (ntrait : Nat) (i : Nat)
@@ -779,6 +818,205 @@ example : laSelect [(3:ℚ), 7, 1, 5] 2 = [1, 3] := by decide +kernel
 
 end round3
 
+/-! ### round 4: problem OBJECTS — histories of setter calls, several objects alive at once, the evalfn oracle -/
+section round4
+variable {α : Type} [Field α] [LinearOrder α] [IsStrictOrderedRing α] [HasSqrt α]
+
+/-- **Histories on one allele-frequency object** (PopulationAlleleUnavailability, PopulationAlleleFrequencyDistance,
+    MultiObjectiveGenomic subset classes).  The classes' latentfn reads masks that the `tfreq` setter stored
+    (`_tminor / _thet / _tmajor`, `_tfreq_fix_minor / _heter / _major`).  After the constructor and ANY sequence of
+    assignments to `geno`, `ploidy`, `mkrwt`, `tfreq`, the three latent vectors are those of the stateless classes on
+    the values assigned last — the stored masks never lag behind the stored targets. -/
+theorem tfobj_history_latent (eps : α) (g : List (List α)) (p : Nat) (w tf : List (List α)) (ops : List (TfOp α))
+    (S : List Nat) (hs : TfShape (lastMkrwt w ops) (lastTfreq tf ops)) :
+    let o := (TfObj.new g p w tf).run ops
+    let G := lastGeno g ops; let P := lastPloidy p ops; let W := lastMkrwt w ops; let T := lastTfreq tf ops
+    some (o.latentPau S) = latent eps (.pau G P W T) (.subset S) ∧
+    some (o.latentPafd S) = latent eps (.pafd G P W T) (.subset S) ∧
+    some (o.latentMogs S) = latent eps (.mogs G P W T) (.subset S) := by
+  intro o G P W T
+  have hc : o.Consistent := TfObj.run_consistent ops _ (TfObj.new_consistent g p w tf)
+  obtain ⟨hG, hP, hW, hT⟩ := TfObj.run_fields ops (TfObj.new g p w tf)
+  obtain ⟨ng, np, nw, nt⟩ := TfObj.new_fields g p w tf
+  rw [ng] at hG; rw [np] at hP; rw [nw] at hW; rw [nt] at hT
+  have hs' : TfShape o.mkrwt o.tfreq := by
+    show TfShape ((TfObj.new g p w tf).run ops).mkrwt ((TfObj.new g p w tf).run ops).tfreq
+    rw [hW, hT]; exact hs
+  have h1 := TfObj.pauLatent_eq o hc hs' S
+  have h2 := TfObj.mogsPauLatent_eq o hc hs' S
+  have eG : o.geno = G := hG
+  have eP : o.ploidy = P := hP
+  have eW : o.mkrwt = W := hW
+  have eT : o.tfreq = T := hT
+  refine ⟨?_, ?_, ?_⟩
+  · show some (o.pauLatent S) = some (pauSubset G P W T S)
+    rw [h1, eG, eP, eW, eT]
+  · show some (pafdSubset o.geno o.ploidy o.mkrwt o.tfreq S) = some (pafdSubset G P W T S)
+    rw [eG, eP, eW, eT]
+  · show some (o.mogsPauLatent S ++ pafdSubset o.geno o.ploidy o.mkrwt o.tfreq S)
+      = some (mogsPau G P W T S ++ pafdSubset G P W T S)
+    rw [h2, eG, eP, eW, eT]
+
+/-- … hence, with `pau_def`, after any history the unavailability class reports the DEFINITION on the data it now holds -/
+theorem tfobj_history_pau_def (g : List (List α)) (p : Nat) (w tf : List (List α)) (ops : List (TfOp α))
+    (S : List Nat) (hs : TfShape (lastMkrwt w ops) (lastTfreq tf ops))
+    (hfreq : ∀ m j, m < (lastMkrwt w ops).length → j < ncols (lastMkrwt w ops) →
+      0 ≤ ent (lastTfreq tf ops) m j ∧ ent (lastTfreq tf ops) m j ≤ 1) :
+    ((TfObj.new g p w tf).run ops).latentPau S
+      = pauDef (lastGeno g ops) (lastPloidy p ops) (lastMkrwt w ops) (lastTfreq tf ops) S := by
+  have h := (tfobj_history_latent (0 : α) g p w tf ops S hs).1
+  rw [pau_def (0 : α) _ _ _ _ S hfreq] at h
+  exact Option.some.inj h
+
+example : TfShape (α := ℚ) (lastMkrwt [[1], [10]] [TfOp.setTfreq [[0], [1]]]) (lastTfreq [[1], [0]] [TfOp.setTfreq [[0], [1]]]) := by
+  intro m j hm hj
+  have hj0 : j = 0 := by simpa [lastMkrwt, ncols] using hj
+  subst hj0
+  simp only [lastMkrwt, List.foldl, List.length_cons, List.length_nil] at hm
+  interval_cases m <;> simp [lastTfreq]
+
+/-- a history in which the masks matter: two parents fixed for the allele at locus 0 and lacking it at locus 1;
+    targets (1, 0) are met (score 0); after `tfreq = (0, 1)` both targets are out of reach (score 1 + 10) -/
+example : ((TfObj.new [[2, 0], [2, 0]] 2 [[1], [10]] [[(1 : ℚ)], [0]]).run []).latentPau [0, 1] = [0] ∧
+    ((TfObj.new [[2, 0], [2, 0]] 2 [[1], [10]] [[(1 : ℚ)], [0]]).run [.setTfreq [[0], [1]]]).latentPau [0, 1] = [11] ∧
+    ((TfObj.new [[2, 0], [2, 0]] 2 [[1], [10]] [[(1 : ℚ)], [0]]).run [.setTfreq [[0], [1]]]).latentMogs [0, 1]
+      = [11, 11] := by
+  refine ⟨by decide +kernel, by decide +kernel, by decide +kernel⟩
+
+/-- **Histories on one family object.**  After the constructor and any sequence of assignments to `ebv` and
+    `familyid`, the stored family list is ascending and duplicate-free, consists of exactly the labels in use, and
+    the stored index sends every candidate to the position of its own label
+    (`numpy.unique(familyid, return_inverse = True)` of the CURRENT `familyid`). -/
+theorem famobj_history (D : List (List α)) (ids : List Nat) (ops : List (FamOp α)) :
+    let o := (FamObj.new D ids).run ops
+    o.family.Pairwise (· < ·) ∧ (∀ x, x ∈ o.family ↔ x ∈ o.familyid) ∧ o.familyix.length = o.familyid.length ∧
+    ∀ i, i < o.familyid.length → o.familyix.getD i 0 < o.family.length ∧
+      o.family.getD (o.familyix.getD i 0) 0 = o.familyid.getD i 0 := by
+  intro o
+  obtain ⟨h1, h2⟩ : o.Consistent := FamObj.run_consistent ops _ (FamObj.new_consistent D ids)
+  rw [h1, h2]
+  exact uniqueInverse_spec o.familyid
+
+example : uniqueInverse [7, 3, 7, 5] = ([3, 5, 7], [2, 0, 2, 1]) := by decide
+
+/-- … and the criterion the four family classes evaluate after any history is the family criterion of the data and
+    labels assigned last, with the index `numpy.unique` gives for THOSE labels -/
+theorem famobj_history_crit (D : List (List α)) (ids : List Nat) (ops : List (FamOp α)) :
+    ((FamObj.new D ids).run ops).crit =
+      .family (lastEbv D ops) (uniqueInverse (lastIds ids ops)).2 (uniqueInverse (lastIds ids ops)).1.length := by
+  obtain ⟨h1, h2⟩ : ((FamObj.new D ids).run ops).Consistent :=
+    FamObj.run_consistent ops _ (FamObj.new_consistent D ids)
+  obtain ⟨e1, e2⟩ := FamObj.run_fields ops (FamObj.new D ids)
+  have e1' : ((FamObj.new D ids).run ops).ebv = lastEbv D ops := e1
+  have e2' : ((FamObj.new D ids).run ops).familyid = lastIds ids ops := e2
+  unfold FamObj.crit
+  rw [h1, h2, e1', e2']
+
+/-- **Several problem objects alive at once.**  Whatever sequence of assignments (data, weights, transformations
+    with their keyword arguments) is applied to the objects of a store, object `i` ends in the state that the
+    assignments naming `i` alone produce: nothing done to another object shows in it. -/
+theorem store_frame (st : List (Problem α)) (ops : List (Nat × POp α)) (i : Nat) :
+    (Store.run st ops)[i]? = st[i]?.map fun p => p.run (opsFor i ops) :=
+  Store.run_get ops st i
+
+/-- … so two histories that agree on what they do to `i` leave `i` (its latentfn, its evalfn) the same -/
+theorem store_isolation (eps : α) (st : List (Problem α)) (ops ops' : List (Nat × POp α)) (i : Nat)
+    (h : opsFor i ops = opsFor i ops') (d : Decn α) (x : List α) :
+    ((Store.run st ops)[i]?.map fun p => p.query eps d x) = ((Store.run st ops')[i]?.map fun p => p.query eps d x) := by
+  rw [store_frame, store_frame, h]
+
+/-- **One object, any history of re-declarations**: what `latentfn` / `evalfn` answer afterwards is the latent vector
+    of the data assigned last and the weights assigned last times the transformations assigned last. -/
+theorem problem_history_query (eps : α) (p : Problem α) (ops : List (POp α)) (d : Decn α) (x : List α) :
+    (p.run ops).query eps d x =
+      (latent eps (lastOf POp.crit? p.crit ops) d).map fun l =>
+        (l, evalfn (lastOf POp.objWt? p.cfg.objWt ops) (lastOf POp.ineqWt? p.cfg.ineqWt ops)
+              (lastOf POp.eqWt? p.cfg.eqWt ops) (lastOf POp.tObj? p.cfg.tObj ops)
+              (lastOf POp.tIneq? p.cfg.tIneq ops) (lastOf POp.tEq? p.cfg.tEq ops) x l) := by
+  obtain ⟨h1, h2, h3, h4, h5, h6, h7⟩ := Problem.run_fields ops p
+  unfold Problem.query
+  rw [h1, h2, h3, h4, h5, h6, h7]
+
+/-- **Jittered kinship factor.**  `_calc_C` may add a jitter `δ ≥ 0` to the diagonal before the Cholesky factorisation
+    (`apply_jitter`), so the factor satisfies `CᵀC = K + δ·I`.  For parental contributions `c ≥ 0`, `Σc = 1`, the
+    squared mean relationship computed from the factor then lies in `[cᵀKc, cᵀKc + δ]`: the tolerance of the
+    contract check (δ ≤ 5.1e-7) bounds the error of the criterion itself. -/
+theorem factor_jitter_bound (C : List (List α)) (c : List α) (K : Nat → Nat → α) (δ : α) (hδ : 0 ≤ δ)
+    (hK : ∀ i j, i < c.length → j < c.length →
+      K i j + (if i = j then δ else 0) = ∑ r ∈ range C.length, ent C r i * ent C r j)
+    (h0 : ∀ i, i < c.length → 0 ≤ vget c i) (h1 : ∑ i ∈ range c.length, vget c i = 1) :
+    let q := ∑ i ∈ range c.length, ∑ j ∈ range c.length, vget c i * K i j * vget c j
+    q ≤ normSq (matVec C c) ∧ normSq (matVec C c) ≤ q + δ := by
+  intro q
+  have hn := normSq_matVec C c (fun i j => K i j + if i = j then δ else 0) hK
+  rw [quad_add_diag c.length (vget c) K δ] at hn
+  obtain ⟨hs0, hs1⟩ := sum_sq_le_one c.length (vget c) h0 h1
+  rw [hn]
+  constructor
+  · exact le_add_of_nonneg_right (mul_nonneg hδ hs0)
+  · have hd : δ * ∑ i ∈ range c.length, vget c i * vget c i ≤ δ := by
+      calc δ * _ ≤ δ * 1 := mul_le_mul_of_nonneg_left hs1 hδ
+        _ = δ := mul_one _
+    show q + δ * _ ≤ q + δ
+    linarith
+
+example : (∀ i, i < ([(1:ℚ)/2, 1/2] : List ℚ).length → 0 ≤ vget [(1:ℚ)/2, 1/2] i) ∧
+    ∑ i ∈ range ([(1:ℚ)/2, 1/2] : List ℚ).length, vget [(1:ℚ)/2, 1/2] i = 1 := by
+  constructor
+  · intro i hi
+    simp only [List.length_cons, List.length_nil] at hi
+    interval_cases i <;> norm_num [vget]
+  · simp [Finset.sum_range_succ, vget]; norm_num
+
+example : opsFor (α := ℚ) 0 [(1, .setObjWt [2]), (0, .setEqWt [3]), (1, .setObjTrans .sum)] = [.setEqWt [3]] := rfl
+
+/-- **Spec oracle of evalfn** (`Selection.evalOk`, driver op `c05.spec_evalfn`, evaluated on the three vectors every
+    implementation call reports): it accepts the model's evalfn for every tolerance ≥ 0, … -/
+theorem spec_evalfn_sound (rel abs_ : α) (h : 0 ≤ abs_) (cfg : EvalCfg α) (x l : List α) :
+    evalOk rel abs_ cfg x l (evalfn cfg.objWt cfg.ineqWt cfg.eqWt cfg.tObj cfg.tIneq cfg.tEq x l).1
+      (evalfn cfg.objWt cfg.ineqWt cfg.eqWt cfg.tObj cfg.tIneq cfg.tEq x l).2.1
+      (evalfn cfg.objWt cfg.ineqWt cfg.eqWt cfg.tObj cfg.tIneq cfg.tEq x l).2.2 = true := by
+  unfold evalOk evalfn
+  simp only [vecClose_self rel abs_ h, Bool.and_self]
+
+/-- … and with zero tolerance nothing else: the oracle demands exactly "weights × declared transformations" -/
+theorem spec_evalfn_exact_iff (cfg : EvalCfg α) (x l o i e : List α) :
+    evalOk 0 0 cfg x l o i e = true ↔
+      (o, i, e) = evalfn cfg.objWt cfg.ineqWt cfg.eqWt cfg.tObj cfg.tIneq cfg.tEq x l := by
+  unfold evalOk evalfn
+  simp only [Bool.and_eq_true, vecClose_exact_iff, Prod.mk.injEq]
+  constructor
+  · rintro ⟨⟨h1, h2⟩, h3⟩; exact ⟨h1.symm, h2.symm, h3.symm⟩
+  · rintro ⟨h1, h2, h3⟩; exact ⟨⟨h1.symm, h2.symm⟩, h3.symm⟩
+
+/-- the user callables handed to the problems by the harness: a one-entry view, a hinge penalty, an affine map -/
+theorem trans_user (x l : List α) (thr m c : α) :
+    (Trans.slice : Trans α).apply x l = l.take 1 ∧
+    (Trans.penalty thr).apply x l = l.map (fun v => max (v - thr) 0) ∧
+    (Trans.affine m c).apply x l = l.map (fun v => m * v + c) := by
+  refine ⟨rfl, ?_, rfl⟩
+  simp only [Trans.apply]
+  apply List.map_congr_left
+  intro v _
+  by_cases h : v - thr < 0
+  · rw [if_pos h, max_eq_right h.le]
+  · rw [if_neg h, max_eq_left (not_lt.mp h)]
+
+/-- `trans_decnvec_sum_eq`: the distance of the decision vector's total from the declared target — zero exactly when
+    the total IS the target (no tolerance) -/
+theorem trans_decn_sum_eq_zero_iff (x l : List α) (t : α) :
+    (Trans.decnSumEq t).apply x l = [|Np.sum x - t|] ∧ ((Trans.decnSumEq t).apply x l = [0] ↔ Np.sum x = t) := by
+  have h : (Trans.decnSumEq t).apply x l = [|Np.sum x - t|] := by simp [Trans.apply, absv_eq_abs]
+  refine ⟨h, ?_⟩
+  rw [h]
+  constructor
+  · intro h0
+    have : |Np.sum x - t| = 0 := by simpa using h0
+    exact sub_eq_zero.mp (abs_eq_zero.mp this)
+  · intro h0; simp [h0]
+
+end round4
+
 /-! ### the guarded weights of the (generalised) weighted breeding values -/
 section guards
 variable {α : Type} [Field α] [LinearOrder α] [IsStrictOrderedRing α]
@@ -825,6 +1063,13 @@ theorem wgebv_absent_allele_prerepair_counterexample :
     ((0.0 : Float) * (-1.0 * (1.0 / Float.sqrt 0.0))).isNaN = true ∧
     ((2.0 : Float) * (-1.0 * (1.0 / Float.sqrt 1.0))).isFinite = true := by
   refine ⟨?_, ?_, ?_⟩ <;> decide +kernel
+
+/-- before dbcebcc2: `numpy.sqrt` of a progeny variance that rounding left at −1e-18 is NaN, so the usefulness
+    criterion of that cross (and every objective computed from it) was NaN; clipped to 0 the root is 0 -/
+theorem uc_negative_variance_prerepair_counterexample :
+    (Float.sqrt (-1.0e-18)).isNaN = true ∧
+    (Float.sqrt (if (-1.0e-18 : Float) < 0.0 then 0.0 else -1.0e-18) == 0.0) = true := by
+  constructor <;> decide +kernel
 
 /-- before 2fe3bbf4: at `fafreq = 1` the numerator `asin 1 − asin √1` is 0 and `1/√(p(1−p))` is inf: the
     weight was `0·inf = NaN`; with `pq` masked to 1 it is `0·1`, overwritten by the limit value 1 -/
